@@ -1338,7 +1338,12 @@ func (x *Exec) verifyFunction(con *Contract) {
 				x.obls = append(x.obls, &Obligation{Name: con.Func + "#tool-limit", Func: con.Func, Kind: "tool-limit", Failed: u.msg, Props: con.Props})
 				return
 			}
-			panic(r)
+			// any other failure of the engine on this function (an internal inconsistency, an index out of range on code
+			// of a shape it has never seen): the function is undecided, which is reported like an unsupported construct -
+			// a named failed obligation - instead of taking the whole check down
+			x.obls = x.obls[:start]
+			x.obls = append(x.obls, &Obligation{Name: con.Func + "#tool-limit", Func: con.Func, Kind: "tool-limit", Failed: fmt.Sprintf("engine failure: %v", r), Props: con.Props})
+			return
 		}
 	}()
 	if fn == nil {
